@@ -69,6 +69,7 @@ class Ctx:
         self.rng = random.Random("%s-%d" % (prop, seed))
         self.repo = REPO
         self.t0 = time.time()
+        self.t_run0 = self.t0
         self.budget = {"quick": 150.0, "thorough": 1500.0}[tier]
         self.tmp = tempfile.mkdtemp(prefix="bobverif-%s-%d-" % (prop, os.getpid()), dir=os.environ.get("BOB_VERIF_TMP"))
         self.evaluations = 0
@@ -90,7 +91,8 @@ class Ctx:
         return quick if self.tier == "quick" else thorough
 
     def time_left(self):
-        return self.budget - (time.time() - self.t0)
+        # the budget covers oracle + correspondence; the Lean build/audit phase is not charged
+        return self.budget - (time.time() - self.t_run0)
 
     def out_of_time(self):
         return self.time_left() <= 0
@@ -216,15 +218,30 @@ def theorem_names(prop):
     return names
 
 
+def import_closure(prop):
+    """project files (relative to lean/) that Props/<prop>.lean transitively imports, itself included"""
+    todo = ["BobModel.Props." + prop]
+    seen = []
+    while todo:
+        m = todo.pop()
+        rel = m.replace(".", "/") + ".lean"
+        if rel in seen or not os.path.exists(os.path.join(LEAN_DIR, rel)):
+            continue
+        seen.append(rel)
+        for line in open(os.path.join(LEAN_DIR, rel)):
+            mm = re.match(r"\s*(?:public\s+)?import\s+(BobModel\.[\w.]+)", line)
+            if mm:
+                todo.append(mm.group(1))
+    return seen
+
+
 def audit(ctx):
     """grep for forbidden constructs, then `#print axioms` on every property theorem"""
     bad = []
-    for root, _, files in os.walk(os.path.join(LEAN_DIR, "BobModel")):
-        for f in files:
-            if f.endswith(".lean"):
-                src = _strip_lean_comments(open(os.path.join(root, f)).read())
-                for m in FORBIDDEN.finditer(src):
-                    bad.append("%s: %s" % (os.path.relpath(os.path.join(root, f), LEAN_DIR), m.group(0).strip()))
+    for rel in import_closure(ctx.prop):
+        src = _strip_lean_comments(open(os.path.join(LEAN_DIR, rel)).read())
+        for m in FORBIDDEN.finditer(src):
+            bad.append("%s: %s" % (rel, m.group(0).strip()))
     if bad:
         ctx.proof_break("forbidden-construct", "\n".join(bad))
     names = theorem_names(ctx.prop)
@@ -433,6 +450,8 @@ def main(argv):
                     if rc != 0:
                         ctx.notes["driver_unavailable"] = True
         try:
+            ctx.t_run0 = time.time()
+            ctx.notes["lean_phase_s"] = round(ctx.t_run0 - ctx.t0, 1)
             # the property oracle needs no Lean at all and always runs; the correspondence needs the driver
             if hasattr(mod, "oracle"):
                 mod.oracle(ctx)
